@@ -210,7 +210,7 @@ pub fn execute_guarded(world: &'static dyn World, case: &Json) -> Outcome {
                 Err(_) => {
                     let msg = take_last_panic().unwrap_or_else(|| "panic".to_owned());
                     let mut o = Outcome::default();
-                    o.violate("panic", "panic", panic_key_detail(&msg));
+                    o.violate("panic", &panic_key(&msg), panic_key_detail(&msg));
                     o
                 }
             }
@@ -223,6 +223,18 @@ pub fn execute_guarded(world: &'static dyn World, case: &Json) -> Outcome {
             o.violate("panic", "panic", "run thread panicked outside catch_unwind".to_owned());
             o
         }
+    }
+}
+
+/// Key of a panic: its source location relative to the crate (so that different panic sites are
+/// different findings, independent of where the repository is checked out).
+fn panic_key(msg: &str) -> String {
+    match msg.rsplit_once(" @ ") {
+        Some((_, loc)) => {
+            let rel = loc.find("/starlark").map(|i| &loc[i + 1..]).unwrap_or(loc);
+            format!("panic@{rel}")
+        }
+        None => "panic".to_owned(),
     }
 }
 
